@@ -56,7 +56,8 @@ def build(tier, seed):
     M = mk({'A1': 1, 'B1': 2, 'C1': 3, 'Y1': '=Y1+1',
             'Z1': '=IF(A1,SPY(1,B1),SPY(2,C1))', 'Z2': '=IF(A1,SPY(1,B1))', 'Z3': '=IF(A1,B1,1/0)', 'Z4': '=IF(A1,1/0,C1)',
             'Z5': '=IF(A1,B1,NOSUCHFUNC(1))', 'Z6': '=IF(A1,NOSUCHFUNC(1),C1)', 'Z7': '=IF(A1,B1,Y1)', 'Z8': '=IF(A1,Y1,C1)',
-            'Z9': '=IF(A1,B1,LEFT())', 'Z10': '=IF(A1,LEFT(),C1)'})
+            'Z9': '=IF(A1,B1,LEFT())', 'Z10': '=IF(A1,LEFT(),C1)', 'Z11': '=IF(A1,B1,#N/A)', 'Z12': '=IF(A1,#REF!,C1)',
+            'Z13': '=IF(A1,B1,-#DIV/0!)', 'Z14': '=IF(A1,(#VALUE!),C1)'})
 
     def h_if(a: TV, b: int, c: int) -> bool:
         for k, v in (('A1', a), ('B1', b), ('C1', c)):
@@ -82,7 +83,7 @@ def build(tier, seed):
         ev = Evaluator(M, NS())
         t = truth(a)
         # poisoned branch is the one NOT selected -> no effect; selected -> error value (1/0) or an exception (unknown function, cycle, python error)
-        for good_if_true, z_else_poison, z_then_poison in ((True, 'Z3', 'Z4'), (True, 'Z5', 'Z6'), (True, 'Z7', 'Z8'), (True, 'Z9', 'Z10')):
+        for good_if_true, z_else_poison, z_then_poison in ((True, 'Z3', 'Z4'), (True, 'Z5', 'Z6'), (True, 'Z7', 'Z8'), (True, 'Z9', 'Z10'), (True, 'Z11', 'Z12'), (True, 'Z13', 'Z14')):
             # else-branch poisoned
             if t:
                 if not valeq(ev.evaluate('Sheet1!' + z_else_poison), b):
@@ -107,7 +108,7 @@ def build(tier, seed):
                     pass
         return True
     add('IF[poisoned other branch]', h_poison, None, [(True, 5, 6), (False, 5, 6), (None, 5, 6), (3, 1, 2)],
-        'other branch is 1/0, an unknown function, a circular reference or a Python-level error: no effect on the result; A1 over bool/int/blank', 10,
+        'other branch is 1/0, an unknown function, a circular reference, a Python-level error or an error constant (#N/A, #REF!, -#DIV/0!, (#VALUE!)): no effect on the result; A1 over bool/int/blank', 12,
         lambda a, b, c: f'A1={a!r} B1={b} C1={c}')
 
     # fractional numbers: TRUE exactly when non-zero (0.5 is TRUE, not truncated to 0)
